@@ -6,6 +6,7 @@ import (
 	"errors"
 	"fmt"
 	"sync"
+	"time"
 
 	"github.com/transparency-dev/witness/internal/persistence"
 	"google.golang.org/grpc/codes"
@@ -21,13 +22,16 @@ const (
 	PWriteOps  = "WriteOps"
 	PWriteGet  = "Write.GetLatest"
 	PWriteSet  = "Write.Set"
+	// PWriteSetDone is a yield-only point right after the store's Set has returned (the
+	// write has taken effect but the caller has not seen the return yet).
+	PWriteSetDone = "Write.Set:done"
 	PWriteClos = "Write.Close"
 )
 
 // FaultSpec asks for one storage call of a request to fail.
 type FaultSpec struct {
 	Point string `json:"point"`
-	Code  string `json:"code,omitempty"` // plain | unavailable | internal | deadline
+	Code  string `json:"code,omitempty"` // plain | unavailable | internal | deadline | cancelctx (no error: the request's context is cancelled at this point)
 	Nth   int    `json:"nth,omitempty"`  // which occurrence within the request (0 = first)
 }
 
@@ -58,6 +62,9 @@ type IPersist struct {
 	OpenWrites int      // WriteOps handles opened and not yet closed
 	// Yield, if set, is called before every storage call (outside the mutex).
 	Yield func(point, logID string)
+	// CancelRequest, if set, cancels the context of the request being served (used by the
+	// "cancelctx" fault code).
+	CancelRequest func()
 	// After, if set, is called after every forwarded storage call returned.
 	After func(point, logID string, err error)
 }
@@ -121,6 +128,18 @@ func (p *IPersist) at(point, logID string) error {
 	p.seen[point] = n + 1
 	for _, f := range p.armed {
 		if f.Point == point && f.Nth == n {
+			if f.Code == "cancelctx" {
+				// not a storage error: the caller's context ends while the storage call is
+				// in flight; the call itself goes on
+				p.Fired = append(p.Fired, fmt.Sprintf("cancelctx@%s#%d", point, n))
+				if c := p.CancelRequest; c != nil {
+					c()
+					p.mu.Unlock()
+					time.Sleep(5 * time.Millisecond)
+					p.mu.Lock()
+				}
+				return nil
+			}
 			p.Fired = append(p.Fired, fmt.Sprintf("%s#%d", point, n))
 			return f.InjectedError()
 		}
@@ -211,7 +230,11 @@ func (w *iWriter) Set(c []byte) error {
 	if err := w.p.at(PWriteSet, w.id); err != nil {
 		return err
 	}
-	return w.inner.Set(c)
+	err := w.inner.Set(c)
+	if y := w.p.Yield; y != nil {
+		y(PWriteSetDone, w.id)
+	}
+	return err
 }
 
 func (w *iWriter) Close() error {
